@@ -372,6 +372,11 @@ class Interp:
                         except Ret:
                             pass
                     return o
+            if len(a) == 1 and e['type'].startswith('std::vector'):
+                n = self.expr(a[0], env)
+                if isinstance(n, int) and not isinstance(n, bool):
+                    return [0] * n
+                return n
             if len(a) == 1:
                 return self.expr(a[0], env)
             if not a:
@@ -470,6 +475,23 @@ class Interp:
                 if isinstance(o, (list, dict)):
                     o.clear()
                     return None
+            if name == 'resize' and isinstance(o, list) and a and isinstance(a[0], int):
+                fill = a[1] if len(a) > 1 else 0
+                if a[0] < 0:
+                    raise OutOfRange('resize(%d) on %s' % (a[0], SX.show(e.get('obj'))))
+                if a[0] < len(o):
+                    del o[a[0]:]
+                else:
+                    o.extend([fill] * (a[0] - len(o)))
+                return None
+            if name == 'assign' and isinstance(o, list) and len(a) == 2 and isinstance(a[0], int):
+                o[:] = [a[1]] * a[0]
+                return None
+            if name == 'swap' and isinstance(o, list) and len(a) == 1 and isinstance(a[0], list):
+                tmp = list(o)
+                o[:] = a[0]
+                a[0][:] = tmp
+                return None
         return _NOPE
 
     def default_struct(self, rec, env):
@@ -499,6 +521,8 @@ class Interp:
             if isinstance(b, list) and isinstance(i, int) and 0 <= i < len(b):
                 b[i] = v
                 return
+            if isinstance(b, list) and isinstance(i, int):
+                raise OutOfRange('store out of range: %s[%s] (length %d)' % (SX.show(l['base']), i, len(b)))
             raise Unsupported('store to element of ' + SX.show(l['base']))
         if l['k'] == 'member':
             b = self.expr(l['base'], env)
